@@ -30,6 +30,26 @@ Proof. vm_compute. split; reflexivity. Qed.
 Lemma kmip_tables_pinned : kmip_ops = pinned_ops /\ kmip_objs = pinned_objs /\ kmip_attrs = pinned_attrs.
 Proof. vm_compute. repeat split; reflexivity. Qed.
 
+Lemma trees_of_map l : trees_of (map VTree l) = Some l.
+Proof. induction l as [|x l IH]; [reflexivity|]. cbn [map trees_of tree_of]. rewrite IH. reflexivity. Qed.
+
+(** an opaque payload is written back as exactly the generic trees that were read *)
+Lemma unknown_payload_reencodes S f st d tag op trees :
+  t_name d = "kmip.UnknownPayload"%string ->
+  enc_custom S (Datatypes.S f) st d tag [VInt op; VList (map VTree trees)] = Ok ([IStruct tag trees], st).
+Proof.
+  intros Hn. cbn [enc_custom]. rewrite Hn.
+  change (String.eqb "kmip.UnknownPayload" "kmip.RequestBatchItem") with false.
+  change (String.eqb "kmip.UnknownPayload" "kmip.ResponseBatchItem") with false.
+  change (String.eqb "kmip.UnknownPayload" "kmip.UnknownPayload") with true. cbv iota.
+  rewrite trees_of_map. reflexivity.
+Qed.
+
+(** a generic tree held in a typed position is written back under that position's tag *)
+Lemma tree_value_reencodes S f st tag i :
+  enc_ty S (Datatypes.S f) st (TNamed "ttlv.Value") tag (VTree i) = Ok ([retag i tag], st).
+Proof. reflexivity. Qed.
+
 Section Dispatch.
   Variable S : schema.
   Variables (OPS : op_table) (ATTRS : attr_table) (OBJS : obj_table).
@@ -60,4 +80,91 @@ Section Dispatch.
   Proof. intros H1 H2. unfold attr_ty. rewrite H1, H2. reflexivity. Qed.
   Lemma attr_ty_unknown name : attr_is_custom name = false -> lookup_attr ATTRS name = None -> attr_ty ATTRS name = TNamed "ttlv.Value".
   Proof. intros H1 H2. unfold attr_ty. rewrite H1, H2. reflexivity. Qed.
+
+  (** ---- payload dispatch, for ANY recursive decoders [dty dopt dobj dtrees] *)
+  Variable dty : vstate -> ty -> Z -> cur R -> dres (R := R).
+  Variable dopt : vstate -> ty -> Z -> cur R -> dres (R := R).
+  Variable dobj : vstate -> Z -> cur R -> dres (R := R).
+  Variable dtrees : cur R -> res (list item * cur R).
+
+  (** what a decoded payload may be for operation [opv] in direction [side] *)
+  Definition payload_ok (side : bool) (opv : Z) (pl : value) : Prop :=
+    match lookup_op OPS opv with
+    | Some (rq, rs) => exists w, pl = VIface (TPtr (TNamed (if side then rs else rq))) (VPtr w)
+    | None => exists trees, pl = VIface (TPtr (TNamed "kmip.UnknownPayload"))
+                                   (VPtr (VStruct "kmip.UnknownPayload" [VInt opv; VList (map VTree trees)]))
+    end.
+
+  Lemma dec_payload_dispatch st side opv tag (c : cur R) pl c' st' :
+    dec_payload OPS F dty dtrees st side opv tag c = Ok (pl, c', st') -> payload_ok side opv pl.
+  Proof.
+    unfold dec_payload, payload_ok. destruct (lookup_op OPS opv) as [[rq rs]|].
+    - destruct (dty st _ tag c) as [[[w cw] sw]| | |]; cbn [bind]; try discriminate.
+      intros H. injection H as <- <- <-. eauto.
+    - destruct (c_struct F tag dtrees c) as [[trees ct]| | |]; cbn [bind]; try discriminate.
+      intros H. injection H as <- <- <-. eauto.
+  Qed.
+
+  Ltac bind_inv H :=
+    repeat match type of H with
+    | bind ?x _ = Ok _ => let E := fresh "E" in destruct x as [[[? ?] ?]| | |] eqn:E; cbn [bind fst snd] in H; try discriminate H
+    end.
+
+  Lemma wrap_struct_inv n tag (c : cur R) body v c' st' :
+    wrap_struct F n tag c body = Ok (v, c', st') ->
+    exists fs sub cs, v = VStruct n fs /\ body sub = Ok (fs, cs, st').
+  Proof.
+    unfold wrap_struct, c_struct. intros H.
+    destruct (c_expect T_STRUCT tag c) as [[t y raw kids kb]| | |]; cbn [bind] in H; try discriminate.
+    destruct (c_open kids kb) as [sub| | |]; cbn [bind] in H; try discriminate.
+    destruct (body sub) as [[[fs cs] ss]| | |] eqn:Eb; cbn [bind fst snd] in H; try discriminate.
+    destruct (strict_close F && snd cs); try discriminate.
+    destruct (c_next c) as [cn| | |]; cbn [bind fst snd] in H; try discriminate.
+    injection H as <- <- <-. eauto.
+  Qed.
+
+  (** RequestBatchItem: the decoded payload has the request type registered for the item's
+      operation, or is the opaque payload carrying that operation code *)
+  Lemma request_item_dispatch st d tag (c : cur R) v c' st' :
+    dec_request_item OPS F dty dopt dtrees st d tag c = Ok (v, c', st') ->
+    exists op id pl ext, v = VStruct (t_name d) [op; id; pl; ext] /\ payload_ok false (int_of op) pl.
+  Proof.
+    unfold dec_request_item. intros H. apply wrap_struct_inv in H. destruct H as (fs & sub & cs & -> & H).
+    bind_inv H. injection H as <- <- <-.
+    do 4 eexists. split; [reflexivity|]. eapply dec_payload_dispatch. eassumption.
+  Qed.
+
+  (** ResponseBatchItem: likewise with the response type; no payload at all is the only other outcome *)
+  Lemma response_item_dispatch st d tag (c : cur R) v c' st' :
+    dec_response_item OPS F dty dopt dtrees st d tag c = Ok (v, c', st') ->
+    exists op id status reason msg acv pl ext,
+      v = VStruct (t_name d) [op; id; status; reason; msg; acv; pl; ext] /\
+      (pl = VNil \/ payload_ok true (int_of op) pl).
+  Proof.
+    unfold dec_response_item. intros H. apply wrap_struct_inv in H. destruct H as (fs & sub & cs & -> & H).
+    bind_inv H. injection H as <- <- <-.
+    do 8 eexists. split; [reflexivity|].
+    match goal with E : (if ?b then _ else _) = Ok _ |- _ => destruct b; [right; eapply dec_payload_dispatch; eassumption | left; injection E as <- _ _; reflexivity] end.
+  Qed.
+
+  (** Get / Register / Export / Import payloads: the object is decoded by [dobj] for the
+      accompanying object type *)
+  Lemma get_response_object st d tag (c : cur R) v c' st' :
+    dec_get_response F dty dobj st d tag c = Ok (v, c', st') ->
+    exists ot uid ob co c1 s1, v = VStruct (t_name d) [ot; uid; ob] /\ dobj st (int_of ot) co = Ok (ob, c1, s1).
+  Proof.
+    unfold dec_get_response. intros H. apply wrap_struct_inv in H. destruct H as (fs & sub & cs & -> & H).
+    bind_inv H. injection H as <- <- <-. do 6 eexists. split; [reflexivity | eassumption].
+  Qed.
+
+  (** Attribute: the value is decoded at the type the table gives for its name *)
+  Lemma attribute_dispatch st d tag (c : cur R) v c' st' :
+    dec_attribute ATTRS F dty st d tag c = Ok (v, c', st') ->
+    exists name idx w, v = VStruct (t_name d) [VStr name; idx; VIface (attr_ty ATTRS name) w].
+  Proof.
+    unfold dec_attribute. intros H. apply wrap_struct_inv in H. destruct H as (fs & sub & cs & -> & H).
+    destruct (c_text F (ftag d 0) sub) as [[nm cn]| | |]; cbn [bind fst snd] in H; try discriminate.
+    match type of H with bind ?x _ = _ => destruct x as [[idx ci]| | |]; cbn [bind fst snd] in H; try discriminate end.
+    bind_inv H. injection H as <- <- <-. eauto.
+  Qed.
 End Dispatch.
